@@ -19,7 +19,8 @@ SPEC = os.path.join(HERE, "rules", "sift_spec.json")
 
 SIFT_FNS = {
     PQ: ["heapify", "bubble_up", "up_heapify", "heap_build"],
-    DPQ: ["heapify", "heapify_min", "heapify_max", "bubble_up", "bubble_up_min", "bubble_up_max", "up_heapify", "heap_build", "find_max", "find_min"],
+    # find_min / find_max are decided semantically (R-EXTREME: table of returned positions by length), not by skeleton
+    DPQ: ["heapify", "heapify_min", "heapify_max", "bubble_up", "bubble_up_min", "bubble_up_max", "up_heapify", "heap_build"],
 }
 DUAL_PAIRS = [("heapify_min", "heapify_max"), ("bubble_up_min", "bubble_up_max")]
 # the index arithmetic of the implicit tree (free functions of the two queue modules)
@@ -36,7 +37,24 @@ class Skel:
     def __init__(self, view):
         self.view = view
         self.fvp = FlowVP(view)
+        self.ofvp = self.fvp          # bodies as extracted
+        self.nfvp = FlowVP(view)      # bodies after variable normalisation (pqa/normalise.py)
+        self._norm = {}
+        self._in_norm = 0
+        self.norm_reports = {}
         self._cb = {}
+
+    def norm(self, f):
+        """the variable-normalised body of f (webs split, copies coalesced, self copies dropped)"""
+        if getattr(f, "normalised_from", None) is not None:
+            return f
+        if f.key not in self._norm:
+            from .normalise import normalise
+            g, rep = normalise(self.view.prog, f)
+            self._norm[f.key] = g
+            if rep:
+                self.norm_reports[f.key] = rep
+        return self._norm[f.key]
 
     def closure_body(self, key):
         if key in self._cb:
@@ -83,7 +101,9 @@ class Skel:
                 locs.add(a[2])
         if not locs or fnkey is None:
             return None
-        f = self.view.prog.fn(fnkey)
+        f = self._norm.get(fnkey) if self._in_norm else None
+        if f is None:
+            f = self.view.prog.fn(fnkey)
         if f is None:
             return None
         out = set()
@@ -92,7 +112,7 @@ class Skel:
         return out
 
     def gens(self, f, l, seen=None):
-        key = (f.key, l)
+        key = (f.key, l, self._in_norm)
         if not hasattr(self, "_gens"):
             self._gens = {}
         if key in self._gens:
@@ -150,8 +170,8 @@ class Skel:
         """definitions of multiply-defined locals that reach at least one use along a feasible path"""
         if not hasattr(self, "_live"):
             self._live = {}
-        if f.key in self._live:
-            return self._live[f.key]
+        if (f.key, self._in_norm) in self._live:
+            return self._live[(f.key, self._in_norm)]
         r = self.fvp.reach(f)
         live = set()
 
@@ -194,7 +214,7 @@ class Skel:
                 op_uses(t["cond"], bb, 10 ** 6)
             elif t["k"] == "return" and 0 in r.multi:
                 live.update(r.at(0, bb, 10 ** 6))
-        self._live[f.key] = live
+        self._live[(f.key, self._in_norm)] = live
         return live
 
     # ---- literals: normalised branch conditions -------------------------------------------------
@@ -231,6 +251,25 @@ class Skel:
                     return [("some(%s)" % x, True)]
                 if here and here <= ABSENT_VARIANTS:
                     return [("some(%s)" % x, False)]
+                if set(names.values()) == {"Less", "Equal", "Greater"} and here:
+                    # `match a.cmp(b)`: the same facts as the comparison operators give
+                    y = _strip(d[1])
+                    while y[0] == "defat":
+                        y = _strip(y[2])
+                    if y[0] == "call" and y[1].split("::")[-1] in ("cmp", "partial_cmp") and len(y[2]) == 2:
+                        a, b = self.c(y[2][0]), self.c(y[2][1])
+                        pre = "p"
+                        site = y[3] if len(y) > 3 else None
+                        if site:
+                            g = self.view.prog.fn(site[0])
+                            pre = "p" if (g is not None and g.term(site[1])["k"] == "call" and self.view.fx.call_info(g, site[1]).cmp) else ""
+                        lt_ab, lt_ba = "%slt(%s,%s)" % (pre, a, b), "%slt(%s,%s)" % (pre, b, a)
+                        table = {frozenset(["Less"]): [(lt_ab, True)], frozenset(["Greater"]): [(lt_ba, True)],
+                                 frozenset(["Less", "Equal"]): [(lt_ba, False)], frozenset(["Greater", "Equal"]): [(lt_ab, False)],
+                                 frozenset(["Equal"]): [(lt_ab, False), (lt_ba, False)], frozenset(["Less", "Greater"]): [("Eq(%s)" % ",".join(sorted((a, b))), False)]}
+                        if frozenset(here) in table:
+                            return table[frozenset(here)]
+                    return [("%s is %s" % (x, "|".join(sorted(here))), True)]
             if vals == [1] or (is_else and all_vals == [0]):
                 return [("some(%s)" % x, True)]
             if vals == [0] or (is_else and all_vals == [1]):
@@ -296,8 +335,12 @@ class Skel:
         if use is not None:
             pf, bb, t, argpos = use
             if "func" in t and t["func"]["key"] in OPTION_PAYLOAD_COMBINATORS and argpos >= 1:
-                recv = self.fvp.operand(pf, t["args"][0], bb, 10 ** 6)
-                res = ("some(%s)" % self.c(recv), True)
+                recv = self.ofvp.operand(pf, t["args"][0], bb, 10 ** 6)
+                was, self._in_norm = self._in_norm, 0
+                try:
+                    res = ("some(%s)" % self.c(recv), True)
+                finally:
+                    self._in_norm = was
         self._imp[f.key] = res
         return res
 
@@ -316,7 +359,18 @@ class Skel:
 
     def skeleton(self, f):
         """-> sorted list of fact strings: every effect with the set of branch literals that guard it, the conditions
-        under which each loop continues, and the returned value"""
+        under which each loop continues, and the returned value; read from the variable-normalised body"""
+        g = self.norm(f)
+        self.fvp = self.nfvp
+        self._in_norm += 1
+        try:
+            return self._skeleton(g)
+        finally:
+            self._in_norm -= 1
+            if not self._in_norm:
+                self.fvp = self.ofvp
+
+    def _skeleton(self, f):
         cfg = f.cfg
         facts = set()
 
